@@ -184,12 +184,17 @@ func main() {
 		var rec struct {
 			Pkg, Harness string
 			Vector       []sx.ReplayVal
+			Decisions    []int
 		}
 		json.Unmarshal(cb, &rec)
 		pkg := prog.Pkgs["github.com/Vedant9500/WTF/"+rec.Pkg]
 		fn := pkg.Func(rec.Harness)
 		cfg := sx.DefaultConfig()
 		res := prog.RunConcrete(fn, cfg, rec.Vector)
+		if os.Getenv("VERIF_SYMBOLIC_PREFIX") != "" {
+			res = prog.RunPrefix(fn, cfg, rec.Decisions)
+			fmt.Println("sample:", res.Sample)
+		}
 		fmt.Printf("concrete run: status=%s msg=%s reached=%v\n", res.Status, res.Msg, res.Reached)
 		for _, f := range res.Findings {
 			fmt.Printf("  finding %s: %s\n", f.Kind, f.Msg)
